@@ -1,12 +1,15 @@
 package schema
 
 import (
+	"bytes"
 	"encoding/json"
 	"fmt"
+	"io"
 	"maps"
 	"reflect"
 	"slices"
 	"sort"
+	"strconv"
 	"strings"
 )
 
@@ -1082,12 +1085,61 @@ func extractObjectDefaultValues(properties map[string]*PropertySchema) map[strin
 	return defaultValues
 }
 
-func jsonUnmarshal(defaultValue string, value any, propertryType TypeID) error {
-	err := json.Unmarshal([]byte(defaultValue), &value)
+// unmarshalExactNumbers is json.Unmarshal into an *any that keeps the integers exact: a number written without fraction
+// and exponent that fits an int64 is decoded to an int64 (json.Unmarshal makes a float64 of every number, which holds
+// integers up to 2^53 only: the default value 9223372036854775807 would be applied as 9223372036854775808).
+func unmarshalExactNumbers(text []byte, value *any) error {
+	decoder := json.NewDecoder(bytes.NewReader(text))
+	decoder.UseNumber()
+	var decoded any
+	if err := decoder.Decode(&decoded); err != nil {
+		return err
+	}
+	if _, err := decoder.Token(); err != io.EOF {
+		return fmt.Errorf("invalid JSON: data after the top-level value")
+	}
+	exact, err := exactNumbers(decoded)
+	if err != nil {
+		return err
+	}
+	*value = exact
+	return nil
+}
+
+func exactNumbers(decoded any) (any, error) {
+	switch v := decoded.(type) {
+	case json.Number:
+		if i, err := strconv.ParseInt(string(v), 10, 64); err == nil {
+			return i, nil
+		}
+		// Not an integer, or beyond the int64 range: a float64, as json.Unmarshal decodes it.
+		return v.Float64()
+	case map[string]any:
+		for key, item := range v {
+			exact, err := exactNumbers(item)
+			if err != nil {
+				return nil, err
+			}
+			v[key] = exact
+		}
+	case []any:
+		for i, item := range v {
+			exact, err := exactNumbers(item)
+			if err != nil {
+				return nil, err
+			}
+			v[i] = exact
+		}
+	}
+	return decoded, nil
+}
+
+func jsonUnmarshal(defaultValue string, value *any, propertryType TypeID) error {
+	err := unmarshalExactNumbers([]byte(defaultValue), value)
 	if err != nil && propertryType == "string" {
 		// attempt to fix yaml string to valid JSON
 		defaultValueTypeString := ("\"" + defaultValue + "\"")
-		err2 := json.Unmarshal([]byte(defaultValueTypeString), &value)
+		err2 := unmarshalExactNumbers([]byte(defaultValueTypeString), value)
 		if err2 != nil {
 			return fmt.Errorf("{%s} additional attempt to format string with additional quotes failed:{%s}",
 				err.Error(), err2.Error())
